@@ -105,6 +105,7 @@ type Field struct {
 	Tag        string // the complete struct tag, e.g. `bexpr:"x" alt:"y"`
 	Type       *Type
 	Unexported bool
+	Embedded   bool // anonymous field (pointerstructure does not promote its fields)
 }
 
 type Type struct {
@@ -209,7 +210,7 @@ func (t *Type) RType() reflect.Type {
 	case KStruct:
 		var fs []reflect.StructField
 		for _, f := range t.Fields {
-			sf := reflect.StructField{Name: f.Name, Type: f.Type.RType(), Tag: reflect.StructTag(f.Tag)}
+			sf := reflect.StructField{Name: f.Name, Type: f.Type.RType(), Tag: reflect.StructTag(f.Tag), Anonymous: f.Embedded}
 			if f.Unexported {
 				sf.PkgPath = unexportedPkg
 			}
